@@ -165,10 +165,16 @@ type Stream struct {
 	Calls     int
 	ShortHits int
 	ErrHits   int
+	// RewindAt > 0: once that many bytes were served the device starts over from its first
+	// byte (a virtual machine resumed from a snapshot, a forked process: the generator state
+	// is duplicated); it happens once
+	RewindAt   int
+	RewindHits int
+	key        uint64
 }
 
 func NewStream(key uint64) *Stream {
-	return &Stream{main: NewPRNG(key), side: NewPRNG(key ^ 0xa5a5a5a5a5a5a5a5), FailAfter: -1}
+	return &Stream{main: NewPRNG(key), side: NewPRNG(key ^ 0xa5a5a5a5a5a5a5a5), FailAfter: -1, key: key}
 }
 
 func (s *Stream) Read(b []byte) (int, error) {
@@ -179,6 +185,10 @@ func (s *Stream) Read(b []byte) (int, error) {
 	if len(b) == 1 && s.FailAfter < 0 && s.MaxChunk == 0 {
 		s.side.Fill(b)
 		return 1, nil
+	}
+	if s.RewindAt > 0 && s.RewindHits == 0 && s.Served >= s.RewindAt {
+		s.main, s.buf = NewPRNG(s.key), nil
+		s.RewindHits++
 	}
 	n := len(b)
 	if s.FailAfter >= 0 {
